@@ -30,10 +30,16 @@ EXC_DISCHARGE = [
          text="raise ResolvaException('Different extracted values for placeholder {0!r} detected. Values were {1!r} and {2!r}.'.format(key, data[key], value))",
          exc="ResolvaException",
          entries=["Sid(str)", "Sid(fields)", "navigation", "get_with", "unfold_search", "FindInList.find",
-                  "GetFromAll.dispatch", "versions", "Sid(path,config)", "FindInPaths.scan"],
+                  "GetFromAll.dispatch", "versions"],
          why="chains through Resolver.get('sid'): built with check_duplicate_placeholders=False and no sid template "
-             "repeats a placeholder (path resolvers: path_to_dict catches ResolvaException)",
+             "repeats a placeholder",
          cond="sid_resolver_no_dupcheck"),
+    dict(fn="resolva.template.match_to_dict",
+         text="raise ResolvaException('Different extracted values for placeholder {0!r} detected. Values were {1!r} and {2!r}.'.format(key, data[key], value))",
+         exc="ResolvaException", entries=["Sid(path,config)", "FindInPaths.scan"],
+         why="the sid resolver is built without duplicate checking, and in path_to_dict every resolve / format call on the path "
+             "resolver sits inside try/except ResolvaException (or formats from a single dictionary)",
+         cond="path_resolve_guarded"),
     dict(fn="resolva.template.match_to_dict",
          text="raise ResolvaException('Different extracted values for placeholder {0!r} detected. Values were {1!r} and {2!r}.'.format(key, data[key], value))",
          exc="ResolvaException", entries=["path(config)", "GetFromPaths.get_data"],
